@@ -15,8 +15,10 @@ for gi in range(groups):
   for ri in range(rpg):
     if derive_seed(base, mod.PROP, tier, 'run', gi, ri) == want:
       print('group', gi, 'run', ri)
-      cfg = mod.gen_config(stream(derive_seed(base, mod.PROP, tier, 'cfg', gi), 'config'), tier)
-      plan = mod.gen_plan(stream(want, 'plan'), cfg, tier)
+      cfg_seed = derive_seed(base, mod.PROP, tier, 'cfg', gi)
+      cfg = mod.gen_config(stream(cfg_seed, 'config'), tier)
+      runner.simboot_instance_split(stream(cfg_seed, 'instance'), cfg)
+      plan = runner.normal_form(mod.gen_plan(stream(want, 'plan'), cfg, tier))
       json.dump({'cfg': cfg, 'plan': plan}, open('/tmp/found_%s.json' % want, 'w'), default=lambda o: o.hex() if isinstance(o, bytes) else repr(o))
       w = mod.boot(cfg)
       t0 = time.time()
